@@ -251,7 +251,7 @@ def check_size_line_cap(P, R, rid):
                 (dotted(lp_.iter.func) or '').split('.')[-1] in ('count', 'range'):
             cnts.add(lp_.target.id)
             inc = inc or [lp_]
-    cap = [n for n in gc.nodes if n.kind == 'test' and 'buff_size' in names_loaded(n.ast) and cnts & names_loaded(n.ast)]
+    cap = [n for n in gc.nodes if n.kind == 'test' and 'buff_size' in names_loaded(T.expand(fc, n.ast, n, keep=tuple(cnts))) and cnts & names_loaded(n.ast)]
     ok = False
     for n in cap:
         reach = gc.reachable_from(T.succ_by_label(n, 'true'))
